@@ -533,9 +533,17 @@ func (eng *Engine) secrecy(props []string) []*Obligation {
 								set(x, out)
 								continue
 							}
-							// unknown / external / dynamic callee: result depends on all arguments; results of
-							// separator functions of unknown origin are generated material
+							// unknown / external / dynamic callee: result depends on all arguments (for a variadic
+							// argument slice: on the elements stored into it, e.g. fmt.Errorf("%q", candidate) yields an
+							// error value that carries the candidate); results of separator functions of unknown
+							// origin are generated material
 							out := argl
+							_, isBuiltin := c.Value.(*ssa.Builtin)
+							for _, a := range args {
+								if sl, ok := a.Type().Underlying().(*types.Slice); ok && !isBuiltin && c.Signature().Variadic() {
+									out |= variadicLabels(a, func(v ssa.Value) labels { return get(v) | reachV(v) }, heap[sliceHeap(sl.Elem())])
+								}
+							}
 							if _, isFnVal := c.Value.(*ssa.Function); !isFnVal && !c.IsInvoke() {
 								if _, isB := c.Value.(*ssa.Builtin); !isB {
 									if _, isC := c.Value.(*ssa.MakeClosure); !isC {
